@@ -30,10 +30,11 @@ const (
 	BMutateNackThenAck
 	BHold
 	BPublishSideThenAck
-	BCancelHolding // cancel the own Subscribe context while this message is unsettled; never settle it
+	BCancelHolding           // cancel the own Subscribe context while this message is unsettled; never settle it
+	BNackThenAckSameDelivery // first delivery: Nack() and then Ack() on the same copy (the Nack wins); redelivery: Ack
 )
 
-var behavNames = []string{"ack", "nack-then-ack", "delay-ack", "mutate-ack", "mutate-nack-then-ack", "hold", "publish-side-then-ack", "cancel-holding"}
+var behavNames = []string{"ack", "nack-then-ack", "delay-ack", "mutate-ack", "mutate-nack-then-ack", "hold", "publish-side-then-ack", "cancel-holding", "nack-then-ack-same-delivery"}
 
 type Behav struct {
 	Kind BehavKind
@@ -73,6 +74,7 @@ type Prog struct {
 	Persistent bool
 	Blocking   bool
 	NTopics    int
+	TopicNames []string // NTopics+1 distinct names (the last one is the side topic)
 	Pubs       []Publisher
 	Subs       []SubSpec
 	Noise      []uint8
@@ -88,9 +90,15 @@ type Prog struct {
 
 func MsgID(p, c, i int) string { return fmt.Sprintf("p%dc%dm%d", p, c, i) }
 
-func topicName(i int) string { return fmt.Sprintf("t%d", i) }
+// topic names come from a generated pool (Prog.TopicNames; index NTopics = the side topic)
+func (p Prog) topicName(i int) string {
+	if i >= 0 && i < len(p.TopicNames) {
+		return p.TopicNames[i]
+	}
+	return fmt.Sprintf("t%d", i)
+}
 
-const sideTopic = "side"
+func (p Prog) sideTopic() string { return p.topicName(p.NTopics) }
 
 // Opts biases the generator for the property under test.
 type Opts struct {
@@ -112,6 +120,19 @@ func Gen(t *rapid.T, o Opts) Prog {
 		Blocking:   rapid.IntRange(0, 2).Draw(t, "blockPublishUntilSubscriberAck") == 0,
 		NTopics:    rapid.IntRange(1, 3).Draw(t, "topics"),
 		Procs:      rapid.SampledFrom([]int{1, 2, 4, 16}).Draw(t, "gomaxprocs"),
+	}
+	// distinct topic names from a pool of 64 (implementations that shard or hash topics must not couple them)
+	seen := map[int]bool{}
+	for len(p.TopicNames) < p.NTopics+1 {
+		k := rapid.IntRange(0, 63).Draw(t, "topicName")
+		if seen[k] {
+			k = (k + len(p.TopicNames)*17 + 1) % 64
+			for seen[k] {
+				k = (k + 1) % 64
+			}
+		}
+		seen[k] = true
+		p.TopicNames = append(p.TopicNames, fmt.Sprintf("topic-%d", k))
 	}
 	if o.ForcePersistent != nil {
 		p.Persistent = *o.ForcePersistent
@@ -229,7 +250,7 @@ func genBehav(t *rapid.T, o Opts) Behav {
 		}
 		return Behav{Kind: BAck}
 	}
-	kinds := []BehavKind{BAck, BAck, BNackThenAck, BDelayAck, BMutateAck, BMutateNackThenAck, BHold, BPublishSideThenAck}
+	kinds := []BehavKind{BAck, BAck, BNackThenAck, BDelayAck, BMutateAck, BMutateNackThenAck, BHold, BPublishSideThenAck, BNackThenAckSameDelivery}
 	if o.HoldBias {
 		kinds = append(kinds, BHold, BHold, BDelayAck, BNackThenAck)
 	}
@@ -264,7 +285,7 @@ func (s SubSpec) Cancels() bool {
 // Canon returns a canonical encoding of the program.
 func (p Prog) Canon() string {
 	var b strings.Builder
-	fmt.Fprintf(&b, "buf=%d pers=%v block=%v topics=%d|", p.Buffer, p.Persistent, p.Blocking, p.NTopics)
+	fmt.Fprintf(&b, "buf=%d pers=%v block=%v topics=%v|", p.Buffer, p.Persistent, p.Blocking, p.TopicNames)
 	for _, pub := range p.Pubs {
 		fmt.Fprintf(&b, "P%v[", pub.StartOnPark)
 		for _, c := range pub.Calls {
@@ -403,9 +424,9 @@ func Run(p Prog) *History {
 
 	h.Subs = make([]*SubRec, len(p.Subs))
 	for i, s := range p.Subs {
-		tn := sideTopic
+		tn := p.sideTopic()
 		if !s.Side {
-			tn = topicName(s.Topic)
+			tn = p.topicName(s.Topic)
 		}
 		h.Subs[i] = &SubRec{Index: i, Topic: tn}
 	}
@@ -434,7 +455,7 @@ func Run(p Prog) *History {
 	// publishers
 	for pi, pub := range p.Pubs {
 		for c, pc := range pub.Calls {
-			pr := &PubRec{Pub: pi, Call: c, Topic: topicName(pc.Topic)}
+			pr := &PubRec{Pub: pi, Call: c, Topic: p.topicName(pc.Topic)}
 			for i := 0; i < pc.N; i++ {
 				id := MsgID(pi, c, i)
 				m := message.NewMessage(id, []byte("payload-"+id))
@@ -588,8 +609,8 @@ func Run(p Prog) *History {
 		}
 	}
 	// state after Close
-	h.PostPublishErr = g.Publish(topicName(0), message.NewMessage("after-close", nil))
-	_, h.PostSubscribeErr = sub.Subscribe(context.Background(), topicName(0))
+	h.PostPublishErr = g.Publish(p.topicName(0), message.NewMessage("after-close", nil))
+	_, h.PostSubscribeErr = sub.Subscribe(context.Background(), p.topicName(0))
 	h.PostChecked = true
 	if !lib.WaitUntil(lib.Live, func() bool { n, _ := lib.PubSubGoroutines(); return n == 0 }) {
 		h.LeakedGoroutines, h.LeakSample = lib.PubSubGoroutines()
@@ -691,6 +712,13 @@ func (h *History) consume(g *gochannel.GoChannel, i int, ch <-chan *message.Mess
 			case <-time.After(time.Duration(b.K) * 100 * time.Microsecond):
 			}
 			settle(true)
+		case BNackThenAckSameDelivery:
+			if count[id] == 1 {
+				settle(false)
+				m.Ack() // too late: the first settlement decides
+			} else {
+				settle(true)
+			}
 		case BCancelHolding:
 			h.mu.Lock()
 			sr.CancelT = lib.Tick()
@@ -699,7 +727,7 @@ func (h *History) consume(g *gochannel.GoChannel, i int, ch <-chan *message.Mess
 			return
 		case BPublishSideThenAck:
 			sm := message.NewMessage("side-"+id, []byte("side"))
-			if err := g.Publish(sideTopic, sm); err == nil {
+			if err := g.Publish(h.Prog.sideTopic(), sm); err == nil {
 				h.mu.Lock()
 				h.SidePub++
 				h.mu.Unlock()
